@@ -1,6 +1,9 @@
 package htmlw
 
 import (
+	"bytes"
+	"encoding/xml"
+	"io"
 	"testing"
 
 	"verifharness/fw"
@@ -31,5 +34,27 @@ func TestGeneratorMatchesParser(t *testing.T) {
 	t.Logf("features %v", feats)
 	if bad > 0 {
 		t.Fatalf("%d mismatching documents", bad)
+	}
+}
+
+// XHTML mode must produce well-formed XML whose character data equals the
+// generator's decoded text (so an XML reader and an HTML reader agree).
+func TestXHTMLWellFormed(t *testing.T) {
+	for i := 0; i < 1500; i++ {
+		d := Generate(fw.RandFor(3, "xhtml-test", i), fw.NewTokens(fw.RandFor(1, "tok", i)), Options{XHTML: true})
+		if err := d.Verify(); err != nil {
+			t.Fatalf("doc %d: %v\n%s", i, err, d.HTML)
+		}
+		dec := xml.NewDecoder(bytes.NewReader(d.HTML))
+		dec.Strict = true
+		for {
+			_, err := dec.Token()
+			if err == io.EOF {
+				break
+			}
+			if err != nil {
+				t.Fatalf("doc %d not well-formed: %v\n%s", i, err, d.HTML)
+			}
+		}
 	}
 }
